@@ -207,9 +207,12 @@ void logev(uint64_t a) {
   fprintf(stderr, "[sim] DEADLOCK (%s): no enabled thread; seed=%llu\n", where,
           (unsigned long long)g_cfg.seed);
   for (int i = 0; i < g_n; i++)
-    fprintf(stderr, "[sim]   slot %d state %d blockedOn %p pool %d client %d\n",
+    fprintf(stderr, "[sim]   slot %d state %d blockedOn %p pool %d client %d iso %lx arena %d deque %zu (front iso %lx, back iso %lx) waiting %p refs %llu\n",
             g_t[i].slot, (int)g_t[i].st, (void*)g_t[i].blockedOn,
-            (int)g_t[i].pool, (int)g_t[i].client);
+            (int)g_t[i].pool, (int)g_t[i].client, (unsigned long)g_t[i].iso, g_t[i].arena, g_t[i].dq.count,
+            g_t[i].dq.count ? (unsigned long)g_t[i].dq.front().iso : 0ul, g_t[i].dq.count ? (unsigned long)g_t[i].dq.back().iso : 0ul,
+            (void*)g_t[i].waiting,
+            g_t[i].waiting ? (unsigned long long)reinterpret_cast<std::atomic<std::uint64_t>*>(reinterpret_cast<char*>(g_t[i].waiting) + 8)->load() : 0ull);
   fflush(stderr);
   _exit(66);
 }
